@@ -160,15 +160,16 @@ theorem raw_message_checked (o : EncOpts) (m b : Bytes) (h : Enc.encode o .raw (
     written as null), finite floats of both widths (bit for bit, through the exact decimal->binary model of
     core C: `Num.toF64Bits` / `Num.toF32Bits`), slices (other than []byte), arrays, string-keyed maps whose
     entries are listed in bytewise key order (the order of the wire syntax and of SortMapKeys, so no
-    permutation enters the statement), and structs whose fields are all kept, plain (no `,string` /
-    `omitempty` / `omitzero`) and named by pairwise different valid-UTF-8 names, nested arbitrarily - the text of a
+    permutation enters the statement), []byte (base64, decoded back by `Enc.b64dec`), and structs whose fields are
+    all kept, not `,string`, named by pairwise different valid-UTF-8 names and not left out (`omitempty` /
+    `omitzero` are carried on values that are not empty / not zero), nested arbitrarily - the text of a
     successful Marshal decodes back (`Enc.decodeBack`: strict parse, then the small typed decoder of
     Model/EncDec.lean) into a value equal to the original: integers exactly, strings byte for byte,
     containers element-wise; the only tolerated difference is a nil slice having become an empty one,
     and only under NoNullSliceOrMap.
-    Missing from the carried universe: []byte (base64 decoding), interface{}, maps with non-string keys or
+    Missing from the carried universe: []byte written as a slice of uint8 values, interface{}, maps with non-string keys or
     with entries listed out of key order (the statement would have to speak of entries up to the permutation
-    SortMapKeys applies), struct fields with options or dropped by dominance / "-", json.Number, RawMessage
+    SortMapKeys applies), `,string` fields, fields left out by omitempty/omitzero or dropped by dominance / "-", json.Number, RawMessage
     and the callback leaves. -/
 theorem roundtrip_partial (o : EncOpts) (T : GoType) (v : GoVal) (b : Bytes)
     (hwf : Enc.rtOK T v = true) (h : Enc.encode o T v = .ok b) :
@@ -202,6 +203,11 @@ example : Enc.rtOK (.st [("A", none, .int 8), ("B", some [98], .sl .bool)]) (.st
 example : Enc.rtOK (.map .str (.sl .f64)) (.map [(.str [97], .sl [.f64 0x3fb999999999999a, .f64 0x8000000000000000]), (.str [97, 98], .nil)]) = true ∧
     Enc.encode EncOpts.std (.map .str (.sl .f64)) (.map [(.str [97], .sl [.f64 0x3fb999999999999a, .f64 0x8000000000000000]), (.str [97, 98], .nil)]) =
       .ok (ascii "{\"a\":[0.1,-0],\"ab\":null}") := by
+  decide +kernel
+
+example : Enc.rtOK (.st [("B", some (ascii "b,omitempty"), .bytes), ("N", some (ascii "n,omitzero"), .int 16)]) (.st [.bytes [1, 2, 255, 0], .int 7]) = true ∧
+    Enc.encode {} (.st [("B", some (ascii "b,omitempty"), .bytes), ("N", some (ascii "n,omitzero"), .int 16)]) (.st [.bytes [1, 2, 255, 0], .int 7]) =
+      .ok (ascii "{\"b\":\"AQL/AA==\",\"n\":7}") := by
   decide +kernel
 
 example : Enc.rtOK (.sl (.ptr (.arr 2 .str))) (.sl [.ptr (.arr [.str [34, 195, 169], .str []]), .nil]) = true ∧
